@@ -1,10 +1,12 @@
 /-
 Layer B of C01/C13/C09, part 1: the capability strings of the draw path in their standard ECMA-48 forms.
 
-* `XtermLike ti` — decidable class of terminal descriptions whose draw-path capabilities are (one of a few) standard
-  ECMA-48 forms; `Tcell.Props.C01B.db_xtermlike` lists the entries of the regenerated database in the class.
+* `XtermLike ti` — decidable class of terminal descriptions whose draw-path capabilities are, once TPuts has removed
+  their padding (`tp_strip`), one of a few standard ECMA-48 forms — or absent where the library tolerates it;
+  `Tcell.Props.C01B.db_layerB` lists the entries of the regenerated database in the class (41 of 49).
 * closed forms of the TParm expansions of the parameterised strings of the class, for ALL parameter values
-  (`parm_cup`, `parm_setaf256`, `parm_setab256`, `parm_setfgbg256`, `parm_setafBasic`, …, `parm_rgb…`, `parm_ul…`),
+  (`parm_cup`, `parm_cup_pad`, `parm_setaf256`, `parm_setab256`, `parm_setfgbg256`, `parm_setafBasic`, `parm_setafAdd`,
+  `parm_setafExt`, `parm_setafColon`, …, `parm_rgb…`, `parm_ul…`),
   stated with the decimal renderer `Ecma48.dec` the emulator lemmas use;
 * `tp_clean`: TPuts is the identity on strings without `$`.
 -/
@@ -522,6 +524,10 @@ def hideStd : Bytes := [27,91,63,50,53,108]
 def hideForms : List Bytes := [hideStd, [27,91,63,50,53,108,27,91,63,49,99]]
 def sgr1 (n : Nat) : Bytes := [27,91,48 + n,109]
 def resetStd : Bytes := [27,91,51,57,59,52,57,109]
+/-- `op` of aixterm (`CSI 32 m CSI 40 m`) and pcansi (`CSI 37;40 m`): not a reset to the default colours — they SET colours -/
+def opAix : Bytes := [27,91,51,50,109,27,91,52,48,109]
+def opPc : Bytes := [27,91,51,55,59,52,48,109]
+def opForms : List Bytes := [resetStd, opAix, opPc]
 def ulStyleStd (s : Nat) : Bytes := [27,91,52,58,48 + s,109]
 def ulResetStd : Bytes := [27,91,53,57,109]
 def decscusr (n : Nat) : Bytes := [27,91,48 + n,32,113]
@@ -557,8 +563,8 @@ def tiOk (ti : Terminfo) : Bool :=
    (ti.showCursor == [] && ti.hideCursor == [])) &&
   stripPadding ti.underline == sgr1 4 && optSent ti.bold (sgr1 1) && optSent ti.reverse (sgr1 7) &&
   optSent ti.blink (sgr1 5) && optSent ti.dim (sgr1 2) && optSent ti.italic (sgr1 3) && optSent ti.strikeThrough (sgr1 9) &&
-  -- colours: one of the palette families with `op` = `CSI 39;49 m`, or none at all
-  (((palKind ti).isSome && ti.resetFgBg == resetStd) || monoOk ti) &&
+  -- colours: one of the palette families with `op` = `CSI 39;49 m` (or one of the two colour-setting `op`s), or none at all
+  (((palKind ti).isSome && opForms.contains ti.resetFgBg) || monoOk ti) &&
   optForm ti.setFgRGB setfRGB && optForm ti.setBgRGB setbRGB && optForm ti.setFgBgRGB setfbRGB &&
   !(ti.autoMargin && ti.disableAutoMargin.isEmpty && !ti.insertChar.isEmpty) &&
   -- coherence of the direct-colour strings (all three or none; tcell sets them together, terminfo.go addTrueColor)
@@ -580,7 +586,7 @@ def dOk (d : Derived) : Bool :=
     tolerates that (no cursor-visibility strings, no bold / reverse / blink / dim / italic / strike-through, no colours, no
     hyperlink, underline-style, underline-colour, cursor-style strings).  (The name is historical: the class started as the
     xterm family and now holds every ECMA-48 entry of the database except the four that use the bottom-right insert-character
-    trick and the two whose `op` string sets colours, see `Props.C01B.db_layerB`.) -/
+    trick, see `Props.C01B.db_layerB`.) -/
 def XtermLike (ti : Terminfo) : Bool := tiOk ti && dOk (derive ti)
 
 end Tcell.LayerB
